@@ -129,9 +129,107 @@ def compare(m, r):
     return None
 
 
+def real_fn(text):
+    try:
+        d = parse_string(text)
+    except (impl.CxxParseError, AssertionError, RecursionError):
+        return ('err',)
+    ns = d.namespace
+    if len(ns.functions) != 1 or ns.variables or ns.typedefs or ns.classes or ns.using_alias or ns.enums or ns.forward_decls or ns.method_impls:
+        return ('other',)
+    f = ns.functions[0]
+    if (f.constexpr or f.extern or f.static or f.inline or f.deleted or f.has_body or f.has_trailing_return or f.template or f.throw
+            or f.noexcept or f.msvc_convention or f.operator or f.raw_requires or len(f.name.segments) != 1):
+        return ('other',)
+    try:
+        ps = []
+        for p in f.parameters:
+            if p.default is not None or p.param_pack:
+                return ('other',)
+            ps.append((decl.from_real(p.type), p.name))
+        return ('ok', f.name.segments[0].name, ('F', decl.from_real(f.return_type), tuple(ps), f.vararg))
+    except decl.Unrepresentable:
+        return ('other',)
+
+
+def gen_fn_stmt(rng):
+    while True:
+        rt = decl.rand_type(rng, rng.choice([0, 1, 2, 3, 5]))
+        if decl.kind(rt) in 'BR' and rt[0] != 'F':
+            break
+    ps = []
+    for i in range(rng.choice([0, 1, 1, 2, 3])):
+        while True:
+            p = decl.rand_type(rng, rng.choice([0, 1, 2, 4]))
+            if decl.var_ok(p):
+                break
+        ps.append((p, rng.choice([None, 'a%d' % i, '_q'])))
+    t = ('F', rt, tuple(ps), rng.random() < 0.2)
+    if not decl.legal(t):
+        return gen_fn_stmt(rng)
+    return decl.print_decl(t, 'fn') + [';'], t
+
+
+def model_fns(toklists):
+    lines, nms = [], []
+    for toks in toklists:
+        names = decl.Names()
+        lines.append([83] + decl.enc_tokens(toks, names))
+        nms.append(names)
+    outs = run_driver(lines)
+    res = []
+    for o, names in zip(outs, nms):
+        if o[0] == 0:
+            t, _ = decl.dec_type(o, 3, names)
+            res.append(('ok', names.rev.get(o[1], '?'), t, o[2]))
+        else:
+            res.append(('err', o[1]))
+    return res
+
+
+def compare_fn(m, r):
+    if m[0] == 'ok':
+        if m[3] != 1:
+            return None            # the model stopped before the ';' (function tails are outside fn_decl)
+        if r[0] != 'ok':
+            return "model decodes the function %s but the implementation %s" % (decl.show(m[2], m[1]), "rejects the input" if r[0] == 'err' else "reports something else")
+        if (r[1], r[2]) != (m[1], m[2]):
+            return "model: %s; implementation: %s" % (decl.show(m[2], m[1]), decl.show(r[2], r[1]))
+        return None
+    if m[1] == 9:
+        return "model ran out of fuel"
+    if m[1] in (1, 2, 3) and r[0] == 'ok':
+        return "model rejects (code %d) but the implementation reports %s" % (m[1], decl.show(r[2], r[1]))
+    return None
+
+
+def correspond_fns(ctx, corr):
+    rng = ctx.rng
+    cases, metas = [], []
+    for _ in range(ctx.scale(800, 15000)):
+        toks, t = gen_fn_stmt(rng)
+        cases.append(toks)
+        metas.append(('fn-valid', t))
+        if rng.random() < 0.5:
+            cases.append(c02.mutate(rng, toks[:-1]) + [';'])
+            metas.append(('fn-mutated', None))
+    ms = model_fns(cases)
+    for toks, (kind, t), m in zip(cases, metas, ms):
+        corr.cases += 1
+        r = real_fn(' '.join(toks))
+        key = kind + ":" + (m[0] if m[0] == 'ok' else 'err%d' % m[1]) + "/" + r[0]
+        corr.dist[key] = corr.dist.get(key, 0) + 1
+        msg = compare_fn(m, r)
+        if msg is None and kind == 'fn-valid' and (m[0] != 'ok' or m[2] != t):
+            msg = "model does not decode the printed function declaration `%s`" % ' '.join(toks)
+        if msg:
+            corr.disagreements.append(dict(case=dict(kind='corr-fn', tokens=toks), model=str(m)[:300], impl=str(r)[:300], what=msg))
+
+
 def correspond(ctx):
     corr = Corr()
     rng = ctx.rng
+    correspond_fns(ctx, corr)
     cases, metas = [], []
     for _ in range(ctx.scale(1200, 25000)):
         toks, items = gen_decl_stmt(rng)
@@ -153,7 +251,7 @@ def correspond(ctx):
         if msg:
             corr.disagreements.append(dict(case=dict(kind='corr', tokens=toks, n=n), model=str(m)[:300], impl=str(r)[:300], what=msg))
     corr.samples = [dict(tokens=' '.join(cases[0][0])), dict(tokens=' '.join(cases[-1][0]))]
-    corr.note = ("extracted parse_decls (the variable loop of _parse_declarations over the declarator model) vs parse_string on the same token lists: "
+    corr.note = ("extracted fn_decl (function declarations: return-type declarator, name, parameter list, vararg) and extracted parse_decls (the variable loop of _parse_declarations over the declarator model) vs parse_string on the same token lists: "
                  "statements with 1-4 declarators sharing a base type, and token mutations of them; compared: the list of (name, type tree) in order, or rejection")
     return corr
 
@@ -300,6 +398,10 @@ def search(ctx, boost=False):
 
 def replay(ctx, case):
     k = case.get("kind")
+    if k == 'corr-fn':
+        m = model_fns([case["tokens"]])[0]
+        msg = compare_fn(m, real_fn(' '.join(case["tokens"])))
+        return [msg] if msg else []
     if k == 'corr':
         m = model_decls([(case["tokens"], case["n"])])[0]
         r = real_decls(' '.join(case["tokens"]))
@@ -334,7 +436,8 @@ def replay(ctx, case):
 
 LEVEL_TEXT = ("PARTIAL. Proved in Coq, for inputs of any size: a variable statement `T d1, d2, ..., dn;` yields exactly one entry per declarator, "
               "in source order, each with its own type built on the shared base type and its own name (one_entry_per_declarator, over the "
-              "declarator round trip of C02, any nesting depth); and the collecting visitor places every callback's payload in the scope in "
+              "declarator round trip of C02, any nesting depth); a function declaration reports exactly its return type, name, parameters and vararg "
+              "flag (function_declaration_decodes); and the collecting visitor places every callback's payload in the scope in "
               "which it was written, in source order, nothing lost and nothing added, for any nesting and re-opening of namespaces and extern "
               "blocks (items_land_where_written over the fold model of SimpleCxxVisitor). Tie: extracted declarator-loop model vs parse_string "
               "on valid and mutated statements (here), recorded real callback streams folded by the model (C12). Everything else in the "
